@@ -8,9 +8,7 @@ package c16
 import (
 	"fmt"
 	"math/big"
-	"sort"
 	"strconv"
-	"strings"
 
 	"github.com/Tom-Johnston/mamba/comb"
 	"github.com/Tom-Johnston/mamba/itertools"
@@ -1024,6 +1022,3 @@ func seededRank(c *engine.Ctx, m *mon) {
 		})
 	}
 }
-
-var _ = sort.Ints
-var _ = strings.Join
